@@ -242,6 +242,10 @@ def scale_spec(n, shape):
     if shape == "wide":
         text = ("aＥ\u0300漢b cＤe\u0301" * (n // 10 + 1))[:n]
         return tuple((text[i : i + 5], _SCALE_PAL[(i // 5) % 3]) for i in range(0, n, 5))
+    if shape == "wide_word":
+        # one unbroken word of ASCII, fullwidth, CJK and combining characters, a new run every 5 characters
+        text = ("aＥ\u0300漢bＤe\u0301x" * (n // 9 + 1))[:n]
+        return tuple((text[i : i + 5], _SCALE_PAL[(i // 5) % 4]) for i in range(0, n, 5))
     if shape == "dense_marks":
         # two combining marks on every base letter: three characters per column
         text = ("e\u0301\u0300o\u0308\u0304" * (n // 6 + 1))[:n]
@@ -309,6 +313,30 @@ def scale_specs(thorough=False, shapes=SCALE_SHAPES, per_size=2):
                 shape = "runs7"
             out.append(scale_spec(n, shape))
     return out
+
+
+def adjacent_colour_pairs(styles=()):
+    """One character per run; every ORDERED pair of (fg, bg) combinations (none or one of 8 colours each: 81 combinations, 6 561 ordered
+    pairs) occurs as a pair of adjacent runs.  Anything that merges or compares neighbouring runs by a packed / hashed form of their
+    colours meets every possible collision."""
+    combos = [(fg, bg) for fg in (None,) + tuple(range(30, 38)) for bg in (None,) + tuple(range(40, 48))]
+
+    def atts(c):
+        out = list(styles)
+        if c[0] is not None:
+            out.append(("fg", c[0]))
+        if c[1] is not None:
+            out.append(("bg", c[1]))
+        return tuple(sorted(out))
+
+    spec = []
+    k = 0
+    for a in combos:
+        for b in combos:
+            spec.append((LETTERS[k % 26], atts(a)))
+            spec.append((LETTERS[(k + 1) % 26].upper(), atts(b)))
+            k += 2
+    return tuple(spec)
 
 
 def few_points(spec, limit=24):
